@@ -169,7 +169,7 @@ def gen_hint(rng, depth):
             return gen_literal(rng)
         if r < 0.9:
             return ['type', rng.choice([['int'], ['UserA'], ['int', 'str'], ['UserA', 'UserC'], [], ['type'],
-                                    ['type', 'int']])]
+                                    ['type', 'int'], ['int', 'NoneType'], ['NoneType', 'UserA', 'str']])]
         return ['shallow', rng.choice(['Iterator', 'Generator']), ['cls', 'int']]
     r = rng.random()
     d = depth - 1
